@@ -124,16 +124,20 @@ CLAIMED = {
             "the real shell: command+undo vs before (all snapshots, `info` text), undo to the start, restart vs fresh.",
             "trusted: Model/Debugger.v, Model/Session.v; nested containers inside attributes would escape the "
             "object-level tables (none exist: ints and tuples only)"),
-    "C14": ("PARTIAL proof. Coq theorems for the expression language: whatever the Pratt parser (hand model of "
+    "C14": ("PARTIAL proof. Coq theorems. Expression language (complete): whatever the Pratt parser (hand model of "
             "miniparser.py, precedences regenerated from source) accepts at precedence p is a sum / product / unary "
-            "expression of the textbook stratified left-associative grammar with exactly the tree that grammar assigns; "
-            "the evaluator (hand model of Shell.evaluate_node) returns v iff the expression means v in ordinary integer "
-            "arithmetic with every literal and intermediate result in -32768..65535 and no zero divisor, and reports an "
-            "error iff it has no such meaning. NOT theorems: that no command line makes the shell raise or hang "
-            "(decided by the survival oracle over all commands, abbreviations, operand counts and arbitrary text in "
-            "start/middle/finished/pc-outside states, and by the session correspondence) and parser completeness "
-            "(rendering oracle: parse(render t) = t, print :d vs independent arithmetic).",
-            "trusted: Model/MiniParser.v, Spec/ExprGrammar.v, Spec/ExprSpec.v, the real lexer (tokens handed to the model)"),
+            "expression of the textbook stratified left-associative grammar with exactly the tree that grammar assigns; every "
+            "derivation of that grammar is found by the parser, and every expression tree written with the usual minimal "
+            "parentheses is read back as that tree (parse o render = id); the evaluator (hand model of Shell.evaluate_node) "
+            "returns v iff the expression means v in ordinary integer arithmetic with every literal and intermediate result "
+            "in -32768..65535 and no zero divisor, and reports an error iff it has no such meaning. Shell: on the session "
+            "model, from a well-formed machine no stepping / breakpoint / flag / goto / restart / assignment / undo / "
+            "read-only command raises an internal error (it returns, or the debugged program's own non-termination exhausts "
+            "the fuel). NOT theorems: message printing, location resolution and `execute` on the real shell, arbitrary text "
+            "lines - decided by the survival oracle (all commands, abbreviations, operand counts and arbitrary text in "
+            "start/middle/finished/pc-outside states) and the session correspondence.",
+            "trusted: Model/MiniParser.v, Model/Session.v, Spec/ExprGrammar.v, Spec/ExprSpec.v, the real lexer (tokens "
+            "handed to the model)"),
     "C07": ("PARTIAL proof. Coq theorems on hand models tied to the code by correspondence: the lexer (Model/Lexer.v, which "
             "records a read past the end of the text instead of excluding it) never reads past the end, consumes at least "
             "one character per token and produces EOF after at most n+1 tokens, for every text; conditional compilation "
